@@ -243,8 +243,23 @@ def gen_instance(rng):
         span, maxdur = 400, rng.choice([12, 60, 200])
     elif mode == "largevals":
         # magnitudes far beyond what a short record produces (indices into 30 k-sample records and more)
-        span = rng.choice([5000, 70000, 300000, 5000000])
-        maxdur = rng.choice([300, 3000, 40000, 70000])
+        span = rng.choice([5000, 70000, 300000, 5000000, 2 ** 24 + 4096, 2 ** 31 + 10 ** 6, 10 ** 12, 2 ** 53 + 10 ** 7])
+        maxdur = rng.choice([300, 3000, 40000, 70000, 12, 40])
+        if span > 5000000:
+            # indices beyond 2**24 / 2**31 / 2**53 (a 1 Hz logger after months; epochs used as indices):
+            # all starts close together near the top of the range, so that only exact arithmetic orders them
+            base = span - rng.choice([2000, 50000])
+            s_starts = [base + x for x in rng.sample(range(span - base), ns)]
+            r_starts = [base + x for x in rng.sample(range(span - base), nr)]
+            storms = {s_: (s_, rng.randint(1, maxdur)) for s_ in s_starts}
+            rises = {r_: (r_, rng.randint(1, maxdur)) for r_ in r_starts}
+            edges = {(s_, r_) for s_ in storms for r_ in rises if rng.random() < 0.6} or {(s_starts[0], r_starts[0])}
+            inst = {"storms": storms, "rises": rises, "edges": edges}
+            used_s = {s_ for s_, _ in edges}
+            used_r = {r_ for _, r_ in edges}
+            inst["storms"] = {k: v for k, v in storms.items() if k in used_s}
+            inst["rises"] = {k: v for k, v in rises.items() if k in used_r}
+            return inst
     if mode == "chain":
         return gen_chain_instance(rng)
     if mode == "star":
@@ -881,6 +896,12 @@ def run_data_case(spec, thresholds, schedules, directory, loaded_db=None):
         if sorted(stored) != source:
             stats["diag_stretch_structure_differs_from_source"] += 1
         classes = sorted((set(classes) - {"one_sample_stretch", "zero_sample_stretch"}) | set(source))
+        # likewise for "a matched storm reaches the end of a stretch"
+        f4 = "matched_storm_reaches_end_of_stretch"
+        in_source = workload.spec_storm_at_stretch_end(spec, s_thr, j_thr)
+        if (f4 in classes) != in_source:
+            stats["diag_stretch_end_storm_differs_from_source"] += 1
+        classes = sorted((set(classes) - {f4}) | ({f4} if in_source else set()))
     tie_free = not refmodel.has_ties(inst, 0)
     stats["data_cases"] += 1
     stats["data_edges"] += len(inst["edges"])
@@ -1579,6 +1600,9 @@ def check(prop, tier, only=None):
         jobs.sort(key=lambda j: order[j[0]])
         for result in runner.run_jobs(_dispatch, jobs):
             report.absorb(result)
+    if report.stats["diag_stretch_end_storm_differs_from_source"]:
+        print("note: %d datasets differ from their source files in whether a matched storm reaches the end of a "
+              "stretch (diagnostic)" % report.stats["diag_stretch_end_storm_differs_from_source"])
     if report.stats["diag_stretch_structure_differs_from_source"]:
         print("note: in %d datasets the gap-free stretches stored by load differ from those of the source files "
               "(degenerate stretches); that is outside C01 / C02 as worded (it concerns loading), but known "
